@@ -2,7 +2,8 @@
 
 Small *real* networks built through the Python API: T1 switched LAN (a - switch - b), T2 routed (a - router - b), T3
 firewall with three zones (external / internal / dmz, one host per zone; every ordered pair of zones is a placement of
-attacker a and victim b).  The attacker carries data-manipulation-bot, ransomware-script, dos-bot, database-client,
+attacker a and victim b), T4 the same firewall with a core router behind its internal port and the victim in the subnet
+behind that router (static routes both ways), attacker in the dmz or outside.  The attacker carries data-manipulation-bot, ransomware-script, dos-bot, database-client,
 ftp-client, nmap, terminal, web-browser and a C2 application; the victim carries database-service, ftp-server, web-server,
 terminal, users, files and the C2 counterpart.  The C2 suite cannot run both of its halves on one node (both listen on the
 same ports and both answer keep-alives), so the C2 arrangement is a harness dimension ``role``: ``bA`` = beacon on a /
@@ -10,13 +11,15 @@ server on b, ``sA`` = server on a / beacon (+ ransomware-script) on b.
 
 Enumerated (explicit products, nothing sampled; ``plan()``):
   topology/placement x role x block mechanism {ACL/firewall-list deny of shape any-any | exact src | exact dst | wildcard
-  range | implicit deny with unrelated permits; interface disabled on the attacker / the victim / either side of the middle
+  range (aligned network base) | wildcard range whose base is the attacker's / the victim's own unaligned address |
+  implicit deny with unrelated permits; interface disabled on the attacker / the victim / either side of the middle
   device; link never connected or removed; victim off; middle device off}
-  x block placement {cold: before any traffic, warm: after a warm-up in which a pinged b, opened a database connection, a
-  remote terminal session and a C2 session, + one tick}
+  x block placement {cold: before any traffic, warm: after a warm-up in which a first pinged its gateway (the router /
+  firewall itself) and logged in to that device's terminal over SSH - so the device holds ICMP and TCP/22 sessions with the
+  attacker -, then pinged b, opened a database connection, a remote terminal session and a C2 session, + one tick}
   x EVERY attack sequence of length <= depth over the 15-event attacker alphabet (``MENU_COMMON`` + ``MENU_ROLE``).
   quick: the core product (T1, T2, T3 with the attacker outside / victim inside: every mechanism and shape; the other five
-  T3 placements: any-any deny in each of their two lists) at depth 2;  thorough: the core product in all four
+  T3 placements: any-any deny in each of their two lists; T4: every shape at the top of internal-inbound) at depth 2;  thorough: the core product in all four
   (placement, role) combinations at depth 3 + the wide product (every T3 placement x both lists x every shape x every
   interface/link/power block x all four combinations) at depth 2.
 The sequences of one configuration are explored as a tree; every tree node is executed in a forked snapshot of the live
@@ -87,7 +90,9 @@ ADAPTER = "c06-tree"
 ZONES = {"ext": ("10.0.1.2", "10.0.1.1", 1, "external"), "int": ("10.0.2.2", "10.0.2.1", 2, "internal"),
          "dmz": ("10.0.3.2", "10.0.3.1", 3, "dmz")}
 FW_LISTS = ["external_inbound", "external_outbound", "internal_inbound", "internal_outbound", "dmz_inbound", "dmz_outbound"]
-FULL_SHAPES = ["any", "src", "dst", "srcwc", "implicit"]
+# srcself / dstself: a wildcard range whose base is the attacker's / the victim's own (unaligned) address, e.g.
+# DENY src 10.0.1.2 wildcard 0.0.0.255
+FULL_SHAPES = ["any", "src", "dst", "srcwc", "srcself", "dstself", "implicit"]
 PARTIAL_SHAPES = ["icmp", "tcp", "tcp5432", "udp"]   # not every path blocked: only oracle 2 applies
 
 MENU_COMMON = [["tick"], ["ping"], ["dbc"], ["dmb"], ["rsw"], ["dos"], ["nmap_ping"], ["nmap_port"], ["ftp"], ["login"],
@@ -454,7 +459,7 @@ def build(cfg):
     omit = block[1] if block[0] == "link" and cfg["placement"] == "cold" else None  # a link that was never there
     s = H.SimSut()
     u = Sut()
-    u.s, u.cfg, u.c = s, cfg, None
+    u.s, u.cfg, u.c, u.core = s, cfg, None, None
     if topo == "T1":
         u.a_ip, u.b_ip, u.a_net = "10.0.0.2", "10.0.0.3", "10.0.0.0"
         a = H.host("computer", "a", u.a_ip)
@@ -491,11 +496,39 @@ def build(cfg):
         for n in (a, b, c, m):
             s.net.add_node(n)
         H.connect(s, c, 1, m, ZONES[zc][2], name="c")
+    elif topo.startswith("T4:"):
+        # firewall (external / internal / dmz) + a core router behind the internal port + the victim in the subnet behind that
+        # router (static routes both ways); the attacker sits in the dmz or outside
+        za = topo[3:]
+        u.za, u.zb = za, "core"
+        u.a_ip, u.b_ip = ZONES[za][0], "10.0.4.2"
+        u.a_net = u.a_ip.rsplit(".", 1)[0] + ".0"
+        a = H.host("computer", "a", u.a_ip, gw=ZONES[za][1])
+        b = H.host("server", "b", u.b_ip, gw="10.0.4.1")
+        core = H.router("core", {1: ("10.0.2.2", "255.255.255.0"), 2: ("10.0.4.1", "255.255.255.0")})
+        m = Firewall.from_config({"type": "firewall", "hostname": "m", "start_up_duration": 0, "shut_down_duration": 0,
+                                  "ports": {"external_port": {"ip_address": ZONES["ext"][1]},
+                                            "internal_port": {"ip_address": ZONES["int"][1]},
+                                            "dmz_port": {"ip_address": ZONES["dmz"][1]}}})
+        for ln in FW_LISTS:
+            _permit_all(getattr(m, ln + "_acl"), 1)
+        m.route_table.add_route(address="10.0.4.0", subnet_mask="255.255.255.0", next_hop_ip_address="10.0.2.2")
+        core.route_table.set_default_route_next_hop_ip_address(IPv4Address("10.0.2.1"))
+        u.port_a, u.port_b = ZONES[za][2], 2
+        u.core = core
+        for n in (a, b, core, m):
+            s.net.add_node(n)
+        H.connect(s, m, 2, core, 1, name="core")
+        H.connect(s, a, 1, m, u.port_a, name="a")
+        H.connect(s, b, 1, core, 2, name="b")
+        for p_ in core.network_interface:
+            core.enable_port(p_)
+        omit = "both"  # the access links are in place
     else:
         raise ValueError(topo)
-    if omit != "a":
+    if omit not in ("a", "both"):
         H.connect(s, a, 1, m, u.port_a, name="a")
-    if omit != "b":
+    if omit not in ("b", "both"):
         H.connect(s, b, 1, m, u.port_b, name="b")
     for n in (a, b, m):
         s.nodes[n.config.hostname] = n
@@ -503,6 +536,7 @@ def build(cfg):
         for p in m.network_interface:
             m.enable_port(p)
     u.a, u.b, u.m = a, b, m
+    u.gw_ip = str(a.config.default_gateway) if getattr(a.config, "default_gateway", None) else None
     _setup_victim(b, role, u.a_ip)
     _setup_attacker(a, role, u.b_ip)
     mon = Mon()
@@ -511,6 +545,8 @@ def build(cfg):
             mon.acl_owner[id(getattr(m, ln + "_acl"))] = (m, ln)
     elif isinstance(m, Router):
         mon.acl_owner[id(m.acl)] = (m, "acl")
+    if getattr(u, "core", None) is not None:
+        mon.acl_owner[id(u.core.acl)] = (u.core, "acl")
     mon.victim = b
     u.mon = mon
     u.warm = []
@@ -590,6 +626,18 @@ def warm_up(u):
     """The attacker pings the victim, opens a database connection, a remote terminal session and a C2 session; one tick."""
     global _MON
     res = []
+    gw = []
+    if u.gw_ip is not None:
+        # the attacker first talks to the router/firewall itself (ICMP and an SSH login to its terminal): the device then holds
+        # sessions with the attacker for the very protocols of the later attacks
+        _MON = u.mon
+        try:
+            gw.append(bool(u.a.ping(u.gw_ip, pings=1)))
+            gw.append(u.s.node_req("a", ["service", "terminal", "node_session_remote_login", "admin", "admin", u.gw_ip]).status)
+        finally:
+            _MON = None
+        keys = [str(k_) for k_ in u.m.session_manager.sessions_by_key]
+        gw.append(sorted(k_ for k_ in keys if "icmp" in k_ or " 22," in k_))
     for k in ("ping", "dbc", "login"):
         out, _ = do_event(u, [k])
         res.append([k, out])
@@ -607,7 +655,9 @@ def warm_up(u):
     res.append(["db_connections", len(u.b.software_manager.software["database-service"]._connections)])
     res.append(["remote_sessions", len(u.b.software_manager.software["user-session-manager"].remote_sessions)])
     do_event(u, ["tick"])
-    u.warm = res
+    u.warm = res + [["gateway_ping_login_sessions", gw]]
+    if gw and not (gw[0] is True and gw[1] == "success" and len(gw[2]) >= 2):
+        raise engine.HarnessError("warm-up with the gateway failed on %r: %r" % (u.cfg, gw))
     ok = res[0][1] is True and res[1][1] == "success" and res[2][1] == "success" and res[3][1] == "success" and res[4][1] and \
         res[5][1] >= 1 and res[6][1] >= 1
     if not ok:
@@ -641,6 +691,10 @@ def block_requests(u, block):
             rules = [_rule("DENY", dst=u.b_ip)]
         elif shape == "srcwc":
             rules = [_rule("DENY", src=u.a_net, srcwc="0.0.0.255")]
+        elif shape == "srcself":
+            rules = [_rule("DENY", src=u.a_ip, srcwc="0.0.0.255")]
+        elif shape == "dstself":
+            rules = [_rule("DENY", dst=u.b_ip, dstwc="0.0.0.255")]
         elif shape == "implicit":
             # the list keeps only permits that match none of the attacker's traffic: everything else meets the implicit deny
             if lname == "acl":
@@ -699,7 +753,7 @@ def is_full_block(cfg):
 
 def block_kind(cfg):
     b = cfg["block"]
-    dev = {"T1": "switch", "T2": "router"}.get(cfg["topo"], "firewall")
+    dev = {"T1": "switch", "T2": "router"}.get(cfg["topo"], "firewall+core-router" if cfg["topo"].startswith("T4") else "firewall")
     if b[0] == "acl":
         return "%s-acl:%s:%s" % (dev, b[1], b[2])
     if b[0] == "port":
@@ -964,8 +1018,36 @@ def run_linear(cfg, history, event):
     return out + agg.viols, dg
 
 
+def _shape_sig(v):
+    """The shape-specific form of a 'frames-reached-victim' signature under an ACL block (see refine_signatures)."""
+    cfg = (v.get("params") or {}).get("cfg") or {}
+    b = cfg.get("block") or [None]
+    if b[0] == "acl" and v["signature"].endswith("|frames-reached-victim") and v["signature"].startswith(block_mech(cfg) + "|"):
+        return "%s:%s|frames-reached-victim" % (block_mech(cfg), b[2])
+    return None
+
+
+def refine_signatures(viols, tested):
+    """A leak through an ACL/firewall list that shows under EVERY rule shape tested on that list is one defect of the
+    forwarding path (signature without the shape); a leak that shows only under some shapes is a defect of those shapes
+    (e.g. a wildcard range that does not match): the shape becomes part of the signature."""
+    leaking = {}
+    for v in viols:
+        if _shape_sig(v):
+            leaking.setdefault(v["signature"], set()).add(v["params"]["cfg"]["block"][2])
+    for v in viols:
+        sh = _shape_sig(v)
+        if sh and leaking[v["signature"]] != tested.get(v["signature"], set()):
+            v["signature"] = sh
+    return viols
+
+
 def replay(doc):
-    return run_linear(doc["params"]["cfg"], doc.get("history") or [], doc.get("event"))[0]
+    viols = run_linear(doc["params"]["cfg"], doc.get("history") or [], doc.get("event"))[0]
+    for v in viols:
+        if _shape_sig(v) == doc.get("signature"):
+            v["signature"] = doc["signature"]
+    return viols
 
 
 def _det_check(item):
@@ -1020,6 +1102,12 @@ def core_configs(placements):
             if za != zb and (za, zb) != ("ext", "int"):
                 for ln in fw_lists(za, zb):
                     add("T3:%s>%s" % (za, zb), ["acl", ln, "any"], [("warm", "bA")])
+    # T4 (victim behind a core router behind the internal port): deny rules of every shape at the top of internal-inbound,
+    # attacker in the dmz; attacker outside: three shapes
+    for sh in FULL_SHAPES:
+        add("T4:dmz", ["acl", "internal_inbound", sh], [("cold", "bA"), ("warm", "sA")])
+    for sh in ("any", "dstself", "implicit"):
+        add("T4:ext", ["acl", "internal_inbound", sh], [("warm", "bA")])
     return out
 
 
@@ -1049,6 +1137,12 @@ def wide_configs():
                     add(topo, ["acl", ln, sh])
             for b in COMMON_BLOCKS:
                 add(topo, b)
+    for za in ("dmz", "ext"):
+        for ln in ("internal_inbound", "dmz_outbound" if za == "dmz" else "external_inbound"):
+            for sh in FULL_SHAPES + PARTIAL_SHAPES:
+                if sh == "implicit" and ln.startswith("external"):
+                    continue
+                add("T4:%s" % za, ["acl", ln, sh])
     return out
 
 
@@ -1061,6 +1155,8 @@ def control_configs():
     out.append({"topo": "T2", "role": "bA", "placement": "cold", "block": ["none"]})
     out.append({"topo": "T3:dmz>ext", "role": "bA", "placement": "warm", "block": ["none"]})
     out.append({"topo": "T3:int>dmz", "role": "sA", "placement": "warm", "block": ["none"]})
+    out.append({"topo": "T4:dmz", "role": "bA", "placement": "warm", "block": ["none"]})
+    out.append({"topo": "T4:ext", "role": "sA", "placement": "warm", "block": ["none"]})
     return out
 
 
@@ -1161,6 +1257,17 @@ def run(tier, is_known):
         "block_kinds": sorted({block_kind(p["cfg"]) for p in per}),
         "harnesses": per,
     }
+    tested = {}
+    for p_ in per:
+        c_ = p_["cfg"]
+        if c_["block"][0] == "acl" and is_full_block(c_):
+            tested.setdefault("%s|frames-reached-victim" % block_mech(c_), set()).add(c_["block"][2])
+    refine_signatures(viols, tested)
+    nsig_final = {}
+    for v in viols:
+        k_ = "%s / %s" % (v["clause"], v["signature"])
+        nsig_final[k_] = nsig_final.get(k_, 0) + 1
+    cov["violation_signatures_after_shape_refinement"] = sorted(nsig_final)
     if ineffective:
         raise engine.HarnessError("vacuous alphabet: %s never changed the victim in the unblocked control runs" % ineffective)
     # shortest histories first, so that the replay file of a signature holds a minimal history
@@ -1173,7 +1280,8 @@ def run(tier, is_known):
             "the attacker acts through Simulation.apply_request on its own node (application execute/configure, nmap scans, ftp "
             "send, terminal remote login / remote command / logoff, C2 server commands) and Node.ping(pings=1); it does not "
             "reconfigure the network (enabling an interface or editing an ACL would remove the block) and it does not pivot "
-            "through the terminal of the router/firewall",
+            "through the terminal of the router/firewall (the warm-up logs in to that terminal before the block, so that the "
+            "device holds sessions with the attacker, but never sends it a command)",
             "'A idle' = the same build, warm-up, block and number of ticks with no request on the attacker; the attacker's software "
             "still runs its apply_timestep (C2 keep-alives) in both runs",
             "block = one mechanism at a time, applied through the request API (ACL add/remove rule, network_interface disable, node "
